@@ -50,8 +50,8 @@ Proof. exact build_merge_map_rank. Qed.
        piece's byte characters, for every merge list, piece and vocabulary in which no two
        strings share an id; in particular encode_piece does not panic or loop *)
 Theorem C28_encode_piece_eq_reference_str : forall o b,
-  bpe_new o = inl b -> o_ignore o = false -> vocab_inj (spec_vocab o) ->
-  N.of_nat (length (o_merges o)) <= 4294967296 ->
+  bpe_new o = inl b -> vocab_inj (spec_vocab o) ->
+  N.of_nat (length (o_merges o)) <= 4294967296 -> o_ignore o = false ->
   forall piece (e : bool), Forall (fun x => x < 256) piece ->
   let word := init_word (if e then norm_eow (o_eow o) else None) piece in
   exists ids, encode_piece b piece e = Ok ids /\
